@@ -14,6 +14,17 @@ import (
 	"symgo/smt"
 )
 
+// concFiles are instrumented with a Yield before every statement for the concurrent checks.
+var concFiles = []string{
+	"internal/engine/command/commander.go",
+	"internal/engine/command/context.go",
+	"internal/engine/command/lock.go",
+	"internal/engine/command/reference.go",
+	"internal/engine/utils/batching/batcher.go",
+	"internal/engine/utils/job/jobs.go",
+	"libs/collectionutils/linked_list.go",
+}
+
 const (
 	repoDir    = "/repo"
 	harnessDir = "/verif/harness"
@@ -74,12 +85,18 @@ func cmdRun(args []string) {
 	needHelper := fs.Bool("helper", false, "build the compiler helper")
 	quiet := fs.Bool("q", false, "only print jobs with findings")
 	summary := fs.Bool("s", false, "print an aggregated summary only")
+	instrumentFlag := fs.Bool("instrument", false, "instrument the concurrency files with yields")
+	crash := fs.Bool("crash", false, "offer a crash at every yield")
 	tmo := fs.Int("timeout", 10000, "solver timeout per query, ms")
 	fallbacks := fs.String("fallbacks", "z3-new cvc5", "fallback solvers for unknown answers")
 	fs.Parse(args)
 
 	t0 := time.Now()
-	sess, err := NewSession(SessionOpts{Tier: *tier, Patterns: []string{*pkg}, NeedShapes: *gen, NeedHelper: *gen || *needHelper, OutName: "run"})
+	var instr []string
+	if *instrumentFlag {
+		instr = concFiles
+	}
+	sess, err := NewSession(SessionOpts{Tier: *tier, Patterns: []string{*pkg}, NeedShapes: *gen, NeedHelper: *gen || *needHelper, OutName: "run", Instrument: instr})
 	if err != nil {
 		fmt.Fprintln(os.Stderr, err)
 		os.Exit(2)
@@ -98,7 +115,7 @@ func cmdRun(args []string) {
 	var jobs []*interp.Job
 	for _, s := range parseShapes(*shapes) {
 		jobs = append(jobs, &interp.Job{Harness: *fn, Fn: f, Args: []interp.Value{int64(s)}, Shape: s,
-			Cfg: interp.Config{Preemptions: *preempt, SchedDecide: *sched, SelectDecide: *sched, PanicIsViolation: true}})
+			Cfg: interp.Config{Preemptions: *preempt, SchedDecide: *sched, SelectDecide: *sched, PanicIsViolation: true, Crash: *crash, MaxSteps: 5_000_000}})
 	}
 	if d := os.Getenv("SYMGO_DUMP"); d != "" {
 		smt.DumpDir = d
